@@ -90,10 +90,13 @@ pub fn classify(r: &MRule) -> Class {
     }
 }
 
-/// Is instant u on daylight time? (class must interleave). The order is the global one, never the queried year's.
+/// Is instant u on daylight time? The order is the global one, never the queried year's.
+/// For 'overlapping' rules the periods of one kind last longer than a year and cover every instant: DST always if the start precedes
+/// the end within a year, standard time always otherwise (this is also what the forward lookup's case analysis yields).
 pub fn is_dst(r: &MRule, class: Class, u: i64) -> bool {
     let y = cal::civil_from_unix(u as i128).y;
     match class {
+        Class::Overlap => r.s(2001) < r.e(2001),
         Class::SFirst | Class::MixedTieS | Class::AllTie => (y - 2..=y + 2).any(|yy| r.s(yy) <= u && u < r.e(yy)),
         Class::EFirst | Class::MixedTieE => (y - 2..=y + 2).any(|yy| r.s(yy) <= u && u < r.e(yy + 1)),
         _ => panic!("is_dst on a non-interleaving rule"),
